@@ -7,7 +7,8 @@ open B6.Model.Proto
 
 theorem mem_step {c : Cfg} {s s' : St} : s' ∈ step c s ↔ s.fin = none ∧
     ( s' ∈ dispStep c s
-    ∨ (s.disp = D.exited ∧ allExited s ∧ s.outClosed = false ∧ s' = { s with outClosed := true })
+    ∨ (s.disp = D.exited ∧ allExited s ∧ s.stored = false ∧ s' = { s with merr := s.gerr, stored := true })
+    ∨ (s.stored = true ∧ s.outClosed = false ∧ s' = { s with outClosed := true })
     ∨ s' ∈ consumerStep c s
     ∨ (∃ j l, s.lanes[j]? = some l ∧ s' ∈ workerStep c s j l)) := by
   unfold step
@@ -16,16 +17,36 @@ theorem mem_step {c : Cfg} {s s' : St} : s' ∈ step c s ↔ s.fin = none ∧
   | none =>
     simp only [Option.isSome_none, Bool.false_eq_true, ↓reduceIte, List.mem_append, mem_forWorkers, mem_guard, true_and]
     constructor
-    · rintro (((h | h) | h) | h)
+    · rintro ((((h | h) | h) | h) | h)
       · exact Or.inl h
       · exact Or.inr (Or.inl ⟨h.1.1, h.1.2.1, h.1.2.2, h.2⟩)
-      · exact Or.inr (Or.inr (Or.inl h))
-      · exact Or.inr (Or.inr (Or.inr h))
-    · rintro (h | h | h | h)
-      · exact Or.inl (Or.inl (Or.inl h))
-      · exact Or.inl (Or.inl (Or.inr ⟨⟨h.1, h.2.1, h.2.2.1⟩, h.2.2.2⟩))
+      · exact Or.inr (Or.inr (Or.inl ⟨h.1.1, h.1.2, h.2⟩))
+      · exact Or.inr (Or.inr (Or.inr (Or.inl h)))
+      · exact Or.inr (Or.inr (Or.inr (Or.inr h)))
+    · rintro (h | h | h | h | h)
+      · exact Or.inl (Or.inl (Or.inl (Or.inl h)))
+      · exact Or.inl (Or.inl (Or.inl (Or.inr ⟨⟨h.1, h.2.1, h.2.2.1⟩, h.2.2.2⟩)))
+      · exact Or.inl (Or.inl (Or.inr ⟨⟨h.1, h.2.1⟩, h.2.2⟩))
       · exact Or.inl (Or.inr h)
       · exact Or.inr h
+
+/-- the driver's cheap successor list is sound -/
+theorem mem_stepsAt {c : Cfg} {s s' : St} {j : Nat} (h : s' ∈ stepsAt c s j) : s' ∈ step c s := by
+  unfold stepsAt at h
+  split at h
+  · simp at h
+  · next hf =>
+    have hr : s.fin = none := by cases e : s.fin <;> simp_all
+    simp only [List.mem_append, mem_guard] at h
+    refine mem_step.mpr ⟨hr, ?_⟩
+    rcases h with (((h | h) | h) | h) | h
+    · exact Or.inl h
+    · exact Or.inr (Or.inl ⟨h.1.1, h.1.2.1, h.1.2.2, h.2⟩)
+    · exact Or.inr (Or.inr (Or.inl ⟨h.1.1, h.1.2, h.2⟩))
+    · exact Or.inr (Or.inr (Or.inr (Or.inl h)))
+    · split at h
+      · next l hl => exact Or.inr (Or.inr (Or.inr (Or.inr ⟨j, l, hl, h⟩)))
+      · simp at h
 
 theorem mem_dispStep {c : Cfg} {s s' : St} (h : s' ∈ dispStep c s) :
     (s.disp = D.running ∧ s.write < c.N ∧ ∃ l, s.lanes[s.write % c.n]? = some l ∧ l.inq = none ∧
@@ -52,7 +73,7 @@ theorem mem_consumerStep {c : Cfg} {s s' : St} (h : s' ∈ consumerStep c s) :
     ∃ l, s.lanes[s.read % c.n]? = some l ∧
       ( (∃ k, l.outq = some k ∧ s' = { s with lanes := s.lanes.set (s.read % c.n) { l with outq := none },
                                                out := s.out ++ [k], read := s.read + 1 })
-      ∨ (l.outq = none ∧ s.outClosed = true ∧ s' = { s with fin := some s.gerr })) := by
+      ∨ (l.outq = none ∧ s.outClosed = true ∧ s' = { s with fin := some s.merr })) := by
   unfold consumerStep at h
   split at h
   · next l hl =>
@@ -214,7 +235,10 @@ structure Inv (c : Cfg) (s : St) : Prop where
   dispc : s.inClosed = true ↔ s.disp = D.exited
   dispF : s.disp ≠ D.running → s.gerr = none → s.write = c.N
   gerrI : ∀ e, s.gerr = some e → c.fails e = true ∧ e < c.N
-  closer : s.outClosed = true → s.disp = D.exited ∧ allExited s
+  /-- `m.err` is assigned after every goroutine of the group has returned, and holds the group's error -/
+  closer : s.stored = true → s.disp = D.exited ∧ allExited s ∧ s.merr = s.gerr
+  /-- a consumer can only see a closed `out[i]` after `m.err` has been assigned -/
+  closed : s.outClosed = true → s.stored = true
   finI : ∀ r, s.fin = some r → r = s.gerr ∧ s.outClosed = true ∧
     ∀ l, s.lanes[s.read % c.n]? = some l → l.outq = none
 
@@ -248,6 +272,7 @@ theorem inv_init (c : Cfg) : Inv c (init c) where
   dispF := by simp [init]
   gerrI := by simp [init]
   closer := by simp [init]
+  closed := by simp [init]
   finI := by simp [init]
 
 theorem inv_disp {c : Cfg} {s s' : St} (I : Inv c s) (hfin : s.fin = none)
@@ -263,7 +288,7 @@ theorem inv_disp {c : Cfg} {s s' : St} (I : Inv c s) (hfin : s.fin = none)
     refine { len := by simp [I.len], lanes := ?_, wle := by simp only; omega, rle := by have := I.rle; simp only; omega,
              out := I.out, okout := I.okout, dispc := I.dispc,
              dispF := (by intro h; exact absurd hd h), gerrI := I.gerrI,
-             closer := ?_, finI := fun r e => (hfin' r e).elim }
+             closer := ?_, closed := I.closed, finI := fun r e => (hfin' r e).elim }
     · show ∀ (j : Nat) (l : Lane), (s.lanes.set (s.write % c.n) { l0 with inq := some s.write })[j]? = some l →
         LaneOK c s.read (s.write + 1) s.gerr s.inClosed j l
       refine lanes_set ?_ ?_
@@ -300,7 +325,7 @@ theorem inv_disp {c : Cfg} {s s' : St} (I : Inv c s) (hfin : s.fin = none)
             dispc := by simp [notclosed],
             dispF := (by intro _ hg'; rw [hg'] at hg; cases hg),
             gerrI := I.gerrI,
-            closer := (by intro ho; have := (I.closer ho).1; rw [hd] at this; cases this),
+            closer := (by intro ho; have := (I.closer ho).1; rw [hd] at this; cases this), closed := I.closed,
             finI := fun r e => (hfin' r e).elim }
   · -- the input is exhausted
     have notclosed : s.inClosed = false := by
@@ -311,20 +336,28 @@ theorem inv_disp {c : Cfg} {s s' : St} (I : Inv c s) (hfin : s.fin = none)
             dispc := by simp [notclosed],
             dispF := (by intro _ _; have := I.wle; simp only; omega),
             gerrI := I.gerrI,
-            closer := (by intro ho; have := (I.closer ho).1; rw [hd] at this; cases this),
+            closer := (by intro ho; have := (I.closer ho).1; rw [hd] at this; cases this), closed := I.closed,
             finI := fun r e => (hfin' r e).elim }
   · -- the dispatcher closes every in[i] and returns
     exact { len := I.len, lanes := fun j l hl => (I.lanes j l hl).in_closed, wle := I.wle, rle := I.rle,
             out := I.out, okout := I.okout, dispc := by simp,
             dispF := (by intro _ hg; exact I.dispF (by rw [hd]; simp) hg),
             gerrI := I.gerrI,
-            closer := (by intro ho; have := (I.closer ho).1; rw [hd] at this; cases this),
+            closer := (by intro ho; have := (I.closer ho).1; rw [hd] at this; cases this), closed := I.closed,
             finI := fun r e => (hfin' r e).elim }
 
-theorem inv_closer {c : Cfg} {s : St} (I : Inv c s) (hfin : s.fin = none)
-    (hd : s.disp = D.exited) (ha : allExited s) : Inv c { s with outClosed := true } :=
+theorem inv_store {c : Cfg} {s : St} (I : Inv c s) (hfin : s.fin = none)
+    (hd : s.disp = D.exited) (ha : allExited s) :
+    Inv c { s with merr := s.gerr, stored := true } :=
   { len := I.len, lanes := I.lanes, wle := I.wle, rle := I.rle, out := I.out, okout := I.okout, dispc := I.dispc,
-    dispF := I.dispF, gerrI := I.gerrI, closer := fun _ => ⟨hd, ha⟩,
+    dispF := I.dispF, gerrI := I.gerrI, closer := fun _ => ⟨hd, ha, rfl⟩,
+    closed := fun _ => rfl,
+    finI := by intro r e; rw [hfin] at e; cases e }
+
+theorem inv_close {c : Cfg} {s : St} (I : Inv c s) (hfin : s.fin = none) (hs : s.stored = true) :
+    Inv c { s with outClosed := true } :=
+  { len := I.len, lanes := I.lanes, wle := I.wle, rle := I.rle, out := I.out, okout := I.okout, dispc := I.dispc,
+    dispF := I.dispF, gerrI := I.gerrI, closer := I.closer, closed := fun _ => hs,
     finI := by intro r e; rw [hfin] at e; cases e }
 
 theorem inv_consumer {c : Cfg} {s s' : St} (I : Inv c s) (hfin : s.fin = none)
@@ -343,7 +376,7 @@ theorem inv_consumer {c : Cfg} {s s' : St} (I : Inv c s) (hfin : s.fin = none)
     refine { len := by simp [I.len], lanes := ?_, wle := I.wle, rle := by simp only; omega,
              out := by simp only; rw [I.out, List.range_succ],
              okout := ?_, dispc := I.dispc, dispF := I.dispF, gerrI := I.gerrI,
-             closer := ?_, finI := fun r e => (hfin' r e).elim }
+             closer := ?_, closed := I.closed, finI := fun r e => (hfin' r e).elim }
     · show ∀ (j : Nat) (l : Lane), (s.lanes.set (s.read % c.n) { l0 with outq := none })[j]? = some l →
         LaneOK c (s.read + 1) s.write s.gerr s.inClosed j l
       refine lanes_set ?_ ?_
@@ -373,18 +406,18 @@ theorem inv_consumer {c : Cfg} {s s' : St} (I : Inv c s) (hfin : s.fin = none)
       · subst e; exact L0.H1 _ hk
       · exact I.okout k' (by simp only at hk'; omega)
     · intro ho
-      obtain ⟨h1, h2⟩ := I.closer ho
-      refine ⟨h1, ?_⟩
+      obtain ⟨h1, h2, h3⟩ := I.closer ho
+      refine ⟨h1, ?_, h3⟩
       intro l hl
       rcases mem_set_cases hl with rfl | hl
       · exact h2 l0 (List.mem_of_getElem? hl0)
       · exact h2 l hl
   · -- out[read % n] is closed and empty: Next() returns (false, m.err)
     exact { len := I.len, lanes := I.lanes, wle := I.wle, rle := I.rle, out := I.out, okout := I.okout,
-            dispc := I.dispc, dispF := I.dispF, gerrI := I.gerrI, closer := I.closer,
+            dispc := I.dispc, dispF := I.dispF, gerrI := I.gerrI, closer := I.closer, closed := I.closed,
             finI := by
               intro r e; simp only [Option.some.injEq] at e
-              refine ⟨e.symm, ho, ?_⟩
+              refine ⟨by rw [← e]; exact (I.closer (I.closed ho)).2.2, ho, ?_⟩
               intro l hl; simp only at hl; rw [hl0] at hl; cases hl; exact hk }
 
 /-- a worker step that only replaces lane `j` -/
@@ -396,7 +429,8 @@ theorem inv_setLane {c : Cfg} {s : St} {j : Nat} {l l' : Lane} (I : Inv c s) (hf
       show ∀ (j' : Nat) (l'' : Lane), (s.lanes.set j l')[j']? = some l'' → LaneOK c s.read s.write s.gerr s.inClosed j' l''
       exact lanes_set hL (fun j' l'' _ h => I.lanes j' l'' h)
     wle := I.wle, rle := I.rle, out := I.out, okout := I.okout, dispc := I.dispc, dispF := I.dispF, gerrI := I.gerrI
-    closer := fun ho => (allExited_set hl hw (I.closer ho).2).elim
+    closer := fun ho => (allExited_set hl hw (I.closer ho).2.1).elim
+    closed := I.closed
     finI := by intro r e; simp only [setLane] at e; rw [hfin] at e; cases e }
 
 theorem inv_worker {c : Cfg} {s s' : St} {j : Nat} {l : Lane} (hn : 0 < c.n) (I : Inv c s) (hfin : s.fin = none)
@@ -468,7 +502,7 @@ theorem inv_worker {c : Cfg} {s s' : St} {j : Nat} {l : Lane} (hn : 0 < c.n) (I 
     have hmono : ∀ (j' : Nat) (l'' : Lane), LaneOK c s.read s.write s.gerr s.inClosed j' l'' →
         LaneOK c s.read s.write (some e') s.inClosed j' l'' := fun _ _ h => h.gerr_set e'
     refine { len := by simp [I.len], lanes := ?_, wle := I.wle, rle := I.rle, out := I.out, okout := I.okout,
-             dispc := I.dispc, dispF := ?_, gerrI := ?_, closer := ?_, finI := ?_ }
+             dispc := I.dispc, dispF := ?_, gerrI := ?_, closer := ?_, closed := I.closed, finI := ?_ }
     · show ∀ (j' : Nat) (l'' : Lane), (s.lanes.set j { l with wk := Wk.exited })[j']? = some l'' →
         LaneOK c s.read s.write (if s.gerr.isSome then s.gerr else some k) s.inClosed j' l''
       rw [hge]
@@ -489,14 +523,15 @@ theorem inv_worker {c : Cfg} {s s' : St} {j : Nat} {l : Lane} (hn : 0 < c.n) (I 
       | some e0 =>
         rw [hgg] at he; simp at he; subst he
         exact I.gerrI _ hgg
-    · intro ho; exact (allExited_set hl (by rw [hw]; simp) (I.closer ho).2).elim
+    · intro ho; exact (allExited_set hl (by rw [hw]; simp) (I.closer ho).2.1).elim
     · intro r e; simp only at e; rw [hfin] at e; cases e
 
 theorem inv_step {c : Cfg} (hn : 0 < c.n) {s s' : St} (I : Inv c s) (h : s' ∈ step c s) : Inv c s' := by
   obtain ⟨hfin, h⟩ := mem_step.mp h
-  rcases h with h | ⟨hd, ha, _, rfl⟩ | h | ⟨j, l, hl, h⟩
+  rcases h with h | ⟨hd, ha, hs, rfl⟩ | ⟨hs, _, rfl⟩ | h | ⟨j, l, hl, h⟩
   · exact inv_disp I hfin h
-  · exact inv_closer I hfin hd ha
+  · exact inv_store I hfin hd ha
+  · exact inv_close I hfin hs
   · exact inv_consumer I hfin h
   · exact inv_worker hn I hfin hl h
 
@@ -526,7 +561,7 @@ def flag (b : Bool) : Nat := if b then 0 else 1
 1 per worker that has not returned, plus the dispatcher, the closer and the consumer's last step -/
 def measure (c : Cfg) (s : St) : Nat :=
   5 * (c.N - s.write) + (s.lanes.map Lane.weight).sum + s.disp.weight
-    + flag s.outClosed + flag s.fin.isSome
+    + flag s.stored + flag s.outClosed + flag s.fin.isSome
 
 theorem sum_map_set {α : Type} (f : α → Nat) : ∀ (l : List α) (i : Nat) (a b : α), l[i]? = some a →
     ((l.set i b).map f).sum + f a = (l.map f).sum + f b := by
@@ -549,7 +584,7 @@ theorem lane_weight_eq (l : Lane) :
 
 theorem measure_step {c : Cfg} {s s' : St} (h : s' ∈ step c s) : measure c s' < measure c s := by
   obtain ⟨hfin, h⟩ := mem_step.mp h
-  rcases h with h | ⟨hd, ha, ho, rfl⟩ | h | ⟨j, l, hl, h⟩
+  rcases h with h | ⟨hd, ha, ho, rfl⟩ | ⟨_, ho, rfl⟩ | h | ⟨j, l, hl, h⟩
   · rcases mem_dispStep h with ⟨hd, hw, l0, hl0, hinq, rfl⟩ | ⟨hd, hw, hg, rfl⟩ | ⟨hd, hw, rfl⟩ | ⟨hd, rfl⟩
     · have := sum_map_set Lane.weight s.lanes (s.write % c.n) l0 { l0 with inq := some s.write } hl0
       rw [lane_weight_eq l0, lane_weight_eq { l0 with inq := some s.write }] at this
@@ -558,6 +593,7 @@ theorem measure_step {c : Cfg} {s s' : St} (h : s' ∈ step c s) : measure c s' 
     · simp only [measure, hd, D.weight]; omega
     · simp only [measure, hd, D.weight]; omega
     · simp only [measure, hd, D.weight]; omega
+  · simp only [measure, ho, flag]; simp
   · simp only [measure, ho, flag]; simp
   · obtain ⟨l0, hl0, h⟩ := mem_consumerStep h
     rcases h with ⟨k, hk, rfl⟩ | ⟨hk, ho, rfl⟩
